@@ -58,6 +58,7 @@ REQUIRED = [
     "model_sequences",
     "model_two_waiters_parked",
     "datagram_cases",
+    "datagram_send_crossing_high_water_itself",
 ]
 WATCHDOG = {"quick": 1200, "thorough": 7200}
 
@@ -257,7 +258,29 @@ def datagram_scenario(ctx, rng: random.Random) -> str | None:
         proto = getattr(ep, "_DatagramEndpoint__protocol")
         mode = rng.choice(["resume", "lost-exc", "lost-none", "cancel-one"])
         out["mode"] = mode
-        proto.pause_writing()
+        self_pause = rng.random() < 0.5
+        out["self_pause"] = self_pause
+        if self_pause:
+            # the send itself is what crosses the high-water mark: the OS refuses the datagram, asyncio queues it and calls
+            # pause_writing() from inside transport.sendto() (scripted here through a proxy of the asyncio transport)
+            real_tr = getattr(ep, "_DatagramEndpoint__transport")
+
+            class _RefusingTransport:
+                def __init__(self) -> None:
+                    self.queued: list = []
+
+                def sendto(self, data, addr=None):
+                    self.queued.append(bytes(data))
+                    if len(self.queued) == 1:
+                        proto.pause_writing()
+
+                def __getattr__(self, name):
+                    return getattr(real_tr, name)
+
+            setattr(ep, "_DatagramEndpoint__transport", _RefusingTransport())
+            ctx.count("datagram_send_crossing_high_water_itself")
+        else:
+            proto.pause_writing()
         results: list = []
 
         async def snd(i):
@@ -302,7 +325,7 @@ def datagram_scenario(ctx, rng: random.Random) -> str | None:
     except vloop.Quiescent as exc:
         return f"deadlock: {exc}"
     if out["done_while_paused"]:
-        return f"datagram send returned while the protocol was paused: {out['done_while_paused']}"
+        return f"datagram send returned while the protocol was paused{' by that very send' if out.get('self_pause') else ''}: {out['done_while_paused']}"
     if out["pending"]:
         return f"datagram senders {out['pending']} stranded after '{out['mode']}'"
     kinds = [r[0] for r in out["results"]]
